@@ -1,4 +1,6 @@
 mod c04;
+mod fx;
+mod model;
 mod ffi;
 mod tables;
 mod util;
@@ -42,6 +44,9 @@ fn main() {
             ];
             let rep = match name {
                 "c04" => c04::run(&tier, seed, &a["meta"], &layouts),
+                "c12" => fx::c12(&tier, seed, &a["meta"]),
+                "c13" => fx::c13(&tier, seed, &a["meta"]),
+                "c14" => fx::c14(&tier, seed, &a["meta"]),
                 _ => {
                     eprintln!("unknown stream {}", name);
                     std::process::exit(2);
